@@ -387,6 +387,37 @@ def gen_tempname():
     return s, ops
 
 
+
+def gen_mmapcfg():
+    """What MemoryMap::new compares the mmap result with, and which length Drop passes to munmap."""
+    ser = strip_comments(read("serialize.rs"))
+    m = re.search(r"let\s+ptr\s*=\s*unsafe\s*\{\s*libc::mmap\([^;]*;\s*if\s+([^{]*?)\s*\{", ser, re.S)
+    if not m:
+        raise GenError("mmap failure test not found in MemoryMap::new")
+    cond = re.sub(r"\s+", "", m.group(1))
+    if cond in ("ptr==libc::MAP_FAILED", "libc::MAP_FAILED==ptr"):
+        cmpk = "CmpMapFailed"
+    elif cond in ("ptr.is_null()", "ptr==ptr::null_mut()"):
+        cmpk = "CmpNull"
+    else:
+        raise GenError("unrecognised mmap failure test: " + cond)
+    m = re.search(r"libc::munmap\(\s*self\.ptr\.cast::<libc::c_void>\(\)\s*,\s*([^;]*?)\)\s*;", ser, re.S)
+    if not m:
+        raise GenError("munmap call not found in Drop for MemoryMap")
+    arg = re.sub(r"\s+", "", m.group(1))
+    if arg in ("bits::words_to_bytes(self.len)", "self.len*8", "self.len*bits::WORD_BYTES", "8*self.len"):
+        unm = "UnmapBytes"
+    elif arg == "self.len":
+        unm = "UnmapElements"
+    else:
+        raise GenError("unrecognised munmap length: " + arg)
+    s = HEADER % "src/serialize.rs (MemoryMap::new, Drop for MemoryMap)"
+    s += "(* failure test of MemoryMap::new: `%s`; munmap length in Drop: `%s` *)\n" % (cond, arg)
+    s += "Inductive cmp_kind := CmpNull | CmpMapFailed.\nInductive unmap_kind := UnmapElements | UnmapBytes.\n\n"
+    s += "Definition cur_cmp : cmp_kind := %s.\nDefinition cur_unmap : unmap_kind := %s.\n" % (cmpk, unm)
+    return s
+
+
 # ----------------------------------------------------------------------------
 # Funs.v: Gallina for the one-expression helpers of bits.rs (checked arithmetic in a mode)
 # ----------------------------------------------------------------------------
@@ -506,14 +537,15 @@ def main():
         layout, _ = gen_layout()
         tempname, _ = gen_tempname()
         funs = gen_funs(cmap)
+        mmapcfg = gen_mmapcfg()
     except GenError as e:
         print("GEN-ERROR: %s" % e)
         sys.exit(2)
-    for name, content in [("Tables.v", tables), ("Consts.v", consts), ("Layout.v", layout), ("TempName.v", tempname), ("Funs.v", funs)]:
+    for name, content in [("Tables.v", tables), ("Consts.v", consts), ("Layout.v", layout), ("TempName.v", tempname), ("Funs.v", funs), ("MmapCfg.v", mmapcfg)]:
         if write_if_changed(os.path.join(OUT, name), content):
             report["changed"].append(name)
     h = hashlib.sha256()
-    for name in ["Tables.v", "Consts.v", "Layout.v", "TempName.v", "Funs.v"]:
+    for name in ["Tables.v", "Consts.v", "Layout.v", "TempName.v", "Funs.v", "MmapCfg.v"]:
         with open(os.path.join(OUT, name), "rb") as f:
             h.update(f.read())
     report["sha256"] = h.hexdigest()
